@@ -585,6 +585,7 @@ package tengo
 //@ func inferModuleName
 //@   props C12
 //@   pure
+//@   requires mod != nil
 //@   assigns nothing
 
 //@ func (*Bytecode).RemoveDuplicates
